@@ -154,9 +154,9 @@ def sampled_schedules(chk, name, algs, programs, maxrun, maxreload, rate, focus,
     return parse_scheds(res)
 
 
-def gen_focus_all(chk, programs, name='focus1t_all', maxrun=3, maxfault=0, spec='GenSpecFocus', targets=('T1',), constraint=None):
+def gen_focus_all(chk, programs, name='focus1t_all', maxrun=3, maxfault=0, spec='GenSpecFocus', targets=('T1',), constraint=None, maxreload=0):
     cfg = os.path.join(chk.work, f'{name}.cfg')
-    tlc.write_cfg(cfg, spec=spec, constants=consts(ALG3, programs, maxrun, 0, targets=list(targets), maxfault=maxfault), extra=['VIEW View', 'ACTION_CONSTRAINT Emit'] + (['CONSTRAINT ' + constraint] if constraint else []))
+    tlc.write_cfg(cfg, spec=spec, constants=consts(ALG3, programs, maxrun, maxreload, targets=list(targets), maxfault=maxfault), extra=['VIEW View', 'ACTION_CONSTRAINT Emit'] + (['CONSTRAINT ' + constraint] if constraint else []))
     res = tlc.run('Sched_Gen.tla', cfg, workers=1, timeout=1800, out_file=os.path.join(chk.work, f'{name}.out'))
     if not res.ok:
         raise core.Machinery(f'generation {name} failed: {res.error or res.violated}')
@@ -396,6 +396,14 @@ def run(pid, tier, seed, replay=None):
         rnd.shuffle(lean)
         fails = [s for s in lean if any(e['ev'] == 'Reply' and e['out'] == 'failure' for e in s['h'])]
         lean = fails[:1800] + [s for s in lean if not any(e['ev'] == 'Reply' and e['out'] == 'failure' for e in s['h'])][:400]
+    # ... and a (re)load after such a pass: what the pass left behind belongs to the old load (farm.clear())
+    fr = leaves(gen_focus_all(chk, 'Programs3Focus' if thorough else 'ProgramsChain', name='faultreload1t', maxrun=2, maxfault=1, maxreload=1))
+    fr = [s for s in fr if [e['ev'] for e in s['h']].count('TickFault') and 'Reload' in [e['ev'] for e in s['h']] and [e['ev'] for e in s['h']].index('TickFault') < [e['ev'] for e in s['h']].index('Reload')]
+    chk.counters['histories_with_a_reload_after_a_dispatch_fault'] = len(fr)
+    if not thorough:
+        rnd.shuffle(fr)
+        fr = fr[:300] if pid == 'C02' else fr[:1500]
+    focus += fr
     if not thorough:
         rnd.shuffle(faulty)
         faulty = [s for s in faulty if any(e['ev'] == 'TickFault' for e in s['h'])][:3500]
